@@ -27,6 +27,7 @@ import (
 	"context"
 	"errors"
 	"io"
+	"runtime"
 	"time"
 
 	"github.com/btcsuite/btcd/chainhash/v2"
@@ -106,6 +107,9 @@ type c13Msg struct {
 
 type c13World struct {
 	sc *c13Scenario
+
+	// goroutine of the harness (native replay only), see ResolveContract
+	gid uint64
 
 	// stop control
 	crashAt [c13MaxLives - 1]int
@@ -318,7 +322,38 @@ func (w *c13World) SwapContract(oldC, newC ContractResolver) error {
 	return nil
 }
 
+// c13Gid returns the id of the calling goroutine in the native replay and 0
+// in the symbolic run.
+func c13Gid() uint64 {
+	if !vNative() {
+		return 0
+	}
+	var b [64]byte
+	n := runtime.Stack(b[:], false)
+	var id uint64
+	for _, c := range b[len("goroutine "):n] {
+		if c < '0' || c > '9' {
+			break
+		}
+		id = id*10 + uint64(c-'0')
+	}
+
+	return id
+}
+
 func (w *c13World) ResolveContract(res ContractResolver) error {
+	// The cut at launchResolvers / resolveContract (c13Park) flags every
+	// resolver as resolved. Since /repo's "fix: contractcourt: remove a
+	// contract that is already resolved after a restart from the log" the
+	// real resolveContract goroutine removes such a resolver from the log;
+	// for a PARKED resolver that is an artifact of the cut, not behaviour of
+	// the unit (symbolically resolveContract is a no-op). Asynchronous
+	// resolver processing is outside this harness (zz_verif_c13_bolt.go runs
+	// it): a call from another goroutine than the harness's changes nothing.
+	// A synchronous call from the code under test is applied.
+	if vNative() && c13Gid() != w.gid {
+		return nil
+	}
 	w.scope = true
 	key := res.ResolverKey()
 	for i := range w.contracts {
@@ -1321,7 +1356,7 @@ func c13NewScenario(htlcMode int) *c13Scenario {
 }
 
 func c13NewWorld(sc *c13Scenario, crashAt ...int) *c13World {
-	w := &c13World{sc: sc}
+	w := &c13World{sc: sc, gid: c13Gid()}
 	for i := range w.crashAt {
 		w.crashAt[i] = -1
 	}
